@@ -1,7 +1,11 @@
 package main
 
 import (
+	"encoding/json"
+	"fmt"
 	"go/ast"
+	"go/token"
+	"os"
 	"path/filepath"
 	"strings"
 )
@@ -13,13 +17,46 @@ import (
 // in source order; Step.defer at each defer statement with its calls in body order; OnErr from
 // the `if` that follows the call: ret | retUnlessNotExist | ignore. A call the extractor does
 // not recognise is emitted as an undefined identifier so the Lean file fails to compile.
+//
+// Also extracted: the definition of the temporary name (`tempPath := path + ".tmp"` → atomicWriteTmpDistinct
+// := true; `tempPath := path` → false = the protocol works in place; anything else → undefined identifier).
+//
+// The same facts are written as AtomicWrite.json next to the Lean file (names without the `Call.`/`OnErr.`
+// prefixes): the harness sends that list to the model's counterexample search (driver op fs.search), so a
+// protocol change is searched for a concrete failing crash scenario even when the Lean file no longer
+// compiles or the tie no longer holds.
 func genAtomicWrite(repo string, o out) {
 	f := parse(filepath.Join(repo, "dbkit/atomic.go"))
 	fd := funcDecl(f, "AtomicWriteFile")
 	var steps []string
+	jsonPath := filepath.Join(o.dir, "AtomicWrite.json")
+	_ = os.Remove(jsonPath)
 	if fd == nil {
 		o.write("AtomicWrite", "import_missing_AtomicWriteFile\n")
 		return
+	}
+	// the temporary name
+	tmpExpr := ""
+	ast.Inspect(fd.Body, func(x ast.Node) bool {
+		if as, ok := x.(*ast.AssignStmt); ok && len(as.Lhs) == 1 && len(as.Rhs) == 1 {
+			if id, ok := as.Lhs[0].(*ast.Ident); ok && id.Name == "tempPath" {
+				if tmpExpr != "" || as.Tok != token.DEFINE {
+					tmpExpr = "reassigned"
+				} else {
+					tmpExpr = strings.ReplaceAll(src(as.Rhs[0]), " ", "")
+				}
+			}
+		}
+		return true
+	})
+	tmpLean, tmpJSON := "", ""
+	switch tmpExpr {
+	case `path+".tmp"`:
+		tmpLean, tmpJSON = "true", "path+.tmp"
+	case "path":
+		tmpLean, tmpJSON = "false", "path"
+	default:
+		tmpLean, tmpJSON = "unknown_tempPath_definition", "unknown:"+tmpExpr
 	}
 	callName := func(c *ast.CallExpr) string {
 		s := src(c.Fun)
@@ -135,9 +172,47 @@ func genAtomicWrite(repo string, o out) {
 			}
 		}
 	}
-	body := "open Lungo.AtomicWrite in\ndef atomicWriteSteps : List Lungo.AtomicWrite.Step := [\n  " + strings.Join(steps, ",\n  ") + "]\n"
+	body := "open Lungo.AtomicWrite in\ndef atomicWriteSteps : List Lungo.AtomicWrite.Step := [\n  " + strings.Join(steps, ",\n  ") + "]\n" +
+		"\n/-- the temporary name is `path + \".tmp\"` (distinct from `path`) -/\ndef atomicWriteTmpDistinct : Bool := " + tmpLean + "\n"
 	content := "/- GENERATED by /verif/go/cmd/extract from /repo's working tree. Do not edit. -/\nimport Lungo.Model.AtomicWrite\nnamespace Lungo.Gen\n\n" + body + "\nend Lungo.Gen\n"
 	o.raw("AtomicWrite", content)
+
+	// machine-readable copy of the same list
+	type jstep struct {
+		Call  string   `json:"call,omitempty"`
+		OnErr string   `json:"onErr,omitempty"`
+		Defer []string `json:"defer,omitempty"`
+	}
+	var js []jstep
+	for _, st := range steps {
+		fs := strings.Fields(st)
+		switch {
+		case len(fs) == 3 && fs[0] == "Step.call":
+			js = append(js, jstep{Call: strings.TrimPrefix(fs[1], "Call."), OnErr: strings.TrimPrefix(fs[2], "OnErr.")})
+		case strings.HasPrefix(st, "Step.defer ["):
+			inner := strings.TrimSuffix(strings.TrimPrefix(st, "Step.defer ["), "]")
+			d := jstep{Defer: []string{}}
+			for _, c := range strings.Split(inner, ",") {
+				if c = strings.TrimSpace(c); c != "" {
+					d.Defer = append(d.Defer, strings.TrimPrefix(c, "Call."))
+				}
+			}
+			js = append(js, d)
+		default:
+			fmt.Fprintln(os.Stderr, "extract: AtomicWrite: cannot render step", st)
+			os.Exit(1)
+		}
+	}
+	b, err := json.MarshalIndent(map[string]interface{}{
+		"source": "dbkit/atomic.go", "func": "AtomicWriteFile", "tmp": tmpJSON, "steps": js,
+	}, "", " ")
+	if err == nil {
+		err = os.WriteFile(jsonPath, append(b, '\n'), 0644)
+	}
+	if err != nil {
+		fmt.Fprintln(os.Stderr, "extract:", err)
+		os.Exit(1)
+	}
 }
 
 func init() { extraGens = append(extraGens, genAtomicWrite) }
